@@ -1063,6 +1063,12 @@ func ColumnDefault(c *schema.Column) (cty.Value, error) {
 		case strings.ToLower(x.V) == "true", strings.ToLower(x.V) == "false":
 			return cty.BoolVal(strings.ToLower(x.V) == "true"), nil
 		case sqlx.IsLiteralNumber(x.V) && !textlike:
+			// Numbers that are not written as plain integers or decimals (e.g. 1e5),
+			// or do not fit in 64 bits are kept as they are, like the literals above.
+			raw := schemahcl.RawExprValue(&schemahcl.RawExpr{X: x.V})
+			if strings.ContainsAny(x.V, "eEnN") {
+				return raw, nil
+			}
 			if strings.Contains(x.V, ".") {
 				f, err := strconv.ParseFloat(x.V, 64)
 				if err != nil {
@@ -1074,11 +1080,11 @@ func ColumnDefault(c *schema.Column) (cty.Value, error) {
 			case errors.Is(err, strconv.ErrRange):
 				u, err := strconv.ParseUint(x.V, 10, 64)
 				if err != nil {
-					return cty.NilVal, err
+					return raw, nil
 				}
 				return cty.NumberUIntVal(u), nil
 			case err != nil:
-				return cty.NilVal, err
+				return raw, nil
 			default:
 				return cty.NumberIntVal(i), nil
 			}
